@@ -145,7 +145,25 @@ def deps_of(vfile, seen=None):
     return seen
 
 
-def proof_leg(prop_file, areas=()):
+def coqchk(prop_file, timeout=1200):
+    """independent re-check of the compiled property file and everything it depends on; returns
+    (ok, axioms list, summary text).  Thorough tier only (30-120 s)."""
+    with Lock('coq'):
+        rc, out, err = sh(['coqchk', '-o', '-silent', '-Q', 'theories', 'QtlVerif', 'QtlVerif.' + prop_file], cwd=COQ, timeout=timeout)
+    txt = out + err
+    m = re.search(r'\* Axioms:(.*?)\n\s*\n\* Constants', txt, re.S)
+    axioms = []
+    if m and '<none>' not in m.group(1):
+        axioms = [a.strip() for a in m.group(1).strip().splitlines() if a.strip()]
+    unsafe = []
+    for key in ('type-in-type', 'unsafe (co)fixpoints', 'positivity is assumed'):
+        mm = re.search(re.escape(key) + r':(.*?)(?:\n\s*\n|\Z)', txt, re.S)
+        if mm and '<none>' not in mm.group(1):
+            unsafe.append(key + ': ' + ' '.join(mm.group(1).split()))
+    return rc == 0 and not unsafe, axioms, txt[-1500:]
+
+
+def proof_leg(prop_file, areas=(), thorough=None):
     """Re-check the property theorems against the freshly regenerated source constants.
     Returns dict(ok, obligations, discharged, theorems, translator, errors, checker_cmd, axioms)."""
     t0 = time.time()
@@ -200,6 +218,17 @@ def proof_leg(prop_file, areas=()):
         if not_allowed:
             res['errors'].append('axioms outside the stated trusted base: ' + ', '.join(not_allowed))
         res['discharged'] = len(names)
+    if thorough is None:
+        thorough = os.environ.get('VERIF_TIER') == 'thorough'
+    if thorough and not res['errors']:
+        ok, axs, summary = coqchk(prop_file)
+        res['coqchk'] = {'ok': ok, 'axioms': axs}
+        res['checker_cmd'] += ' && coqchk -o -silent -Q theories QtlVerif QtlVerif.' + prop_file
+        if not ok:
+            res['errors'].append('coqchk rejects the compiled development: ' + summary[-400:])
+        bad_ax = [a for a in axs if a.split('.')[-1] not in STD_AXIOMS_ALLOWED]
+        if bad_ax:
+            res['errors'].append('coqchk reports axioms outside the stated trusted base: ' + ', '.join(bad_ax))
     files = sorted(deps_of(vfile) | {vfile})
     bad = forbidden_scan(files)
     if bad:
@@ -316,6 +345,8 @@ class Check:
         self.cov['translator'] = res.get('translator', {})
         self.cov['proof_files'] = res.get('files', [])
         self.cov['proof_wall_s'] = res.get('wall_s')
+        if 'coqchk' in res:
+            self.cov['coqchk'] = res['coqchk']
         if not res['ok']:
             for e in res['errors']:
                 self.broke(e, {'kind': 'proof', 'error': e, 'failed_at': res.get('failed_at'), 'log_tail': res.get('log_tail', '')[-1500:]})
